@@ -42,9 +42,180 @@ def doAdmm (l : Line) : Option String := do
     some s!"ok log={showLog log} x={showVec s.x} z={showVec s.z} u={showVec s.u}"
   | _ => none
 
+def optSpec? (l : Line) (k : String) : Option (Option (PSpec Rat)) :=
+  match l.get? k with
+  | some "none" => some none
+  | some _ => (Line.pspec? l k).map some
+  | none => none
+
+def fam (f : List α) (d : α) : Nat → α := fun i => f.getD i d
+
+def showFam (f : Nat → RV) (m : Nat) : String := showLog ((List.range m).map f)
+
+/-- `adupdates variant=opt|simple m= A0= At0= p0= … stepsize= inner= rid= cb=inner|outer x0= n=` -/
+def doAdupdates (l : Line) : Option String := do
+  let variant ← l.get? "variant"
+  let m ← l.nat? "m"
+  let As ← Line.family l "A" m parseRatMat
+  let Ats ← Line.family l "At" m parseRatMat
+  let ps ← Line.family l "p" m parsePSpec
+  let stepsize ← l.rat? "stepsize"
+  let inner ← l.rats? "inner"
+  let rid ← l.nats? "rid"
+  let cb ← l.get? "cb"
+  let x0 ← l.rats? "x0"
+  let n ← l.nat? "n"
+  if stepsize = 0 || inner.length ≠ m || rid.length ≠ m then none
+  let dv := x0.length
+  for A in As do shape? A (Mat.rows A) dv
+  let P : AduP Rat RV RV :=
+    { m := m, L := fun i => Mat.mulVec (fam As [] i), Ladj := fun i => Mat.mulVec (fam Ats [] i),
+      prox := fun i => (fam ps .id i).eval, stepsize := stepsize, inner := fam inner 0,
+      rid := fam rid 0, cbInner := cb = "inner" }
+  let duals0 : Nat → RV := fun i => Vec.zero (Mat.rows (fam As [] i))
+  match variant with
+  | "opt" =>
+    let s := iter P.stepOpt n ⟨x0, duals0, fun _ => junk 1, []⟩
+    some s!"ok log={showLog s.log} x={showVec s.x} duals={showFam s.duals m}"
+  | "simple" =>
+    let s := iter P.stepSimple n ⟨x0, duals0⟩
+    some s!"ok x={showVec s.x} duals={showFam s.duals m}"
+  | _ => none
+
+/-- `dpdc variant=opt|simple A= At= pf= gphi= pgc= gamma= mu= x0= y0= n=` -/
+def doDpdc (l : Line) : Option String := do
+  let variant ← l.get? "variant"
+  let A ← Line.matR? l "A"
+  let At ← Line.matR? l "At"
+  let pf ← Line.pspec? l "pf"
+  let gphi ← Line.pspec? l "gphi"
+  let pgc ← Line.pspec? l "pgc"
+  let gamma ← l.rat? "gamma"
+  let mu ← l.rat? "mu"
+  let x0 ← l.rats? "x0"
+  let y0 ← l.rats? "y0"
+  let n ← l.nat? "n"
+  shape? A y0.length x0.length; shape? At x0.length y0.length
+  let P : DpdcP Rat RV RV := ⟨A.mulVec, At.mulVec, pf.eval, gphi.eval, pgc.eval, gamma, mu⟩
+  let step ← match variant with
+    | "opt" => some P.stepOpt
+    | "simple" => some P.stepSimple
+    | _ => none
+  let (s, log) := runLog step (·.1) n ((x0 : RV), (y0 : RV)) []
+  some s!"ok log={showLog log} x={showVec s.1} y={showVec s.2}"
+
+/-- `landweber A= At= rhs= omega= proj=<pspec>|none x0= n=` -/
+def doLandweber (l : Line) : Option String := do
+  let A ← Line.matR? l "A"
+  let At ← Line.matR? l "At"
+  let rhs ← l.rats? "rhs"
+  let omega ← l.rat? "omega"
+  let proj ← optSpec? l "proj"
+  let x0 ← l.rats? "x0"
+  let n ← l.nat? "n"
+  shape? A rhs.length x0.length; shape? At x0.length rhs.length
+  let P : LandweberP Rat RV RV := ⟨A.mulVec, fun _ => At.mulVec, rhs, omega, proj.map (·.eval)⟩
+  let (s, log) := runLog P.step (·.x) n (P.init x0 (junk rhs.length) (junk x0.length)) []
+  some s!"ok log={showLog log} x={showVec s.x}"
+
+/-- `kaczmarz m= A0= At0= rhs0= … omega= proj= rid= cb= x0= n=` -/
+def doKaczmarz (l : Line) : Option String := do
+  let m ← l.nat? "m"
+  let As ← Line.family l "A" m parseRatMat
+  let Ats ← Line.family l "At" m parseRatMat
+  let rhs ← Line.family l "rhs" m parseRatList
+  let omega ← l.rats? "omega"
+  let proj ← optSpec? l "proj"
+  let rid ← l.nats? "rid"
+  let cb ← l.get? "cb"
+  let x0 ← l.rats? "x0"
+  let n ← l.nat? "n"
+  if omega.length ≠ m || rid.length ≠ m then none
+  let P : KaczmarzP Rat RV RV :=
+    { m := m, ops := fun i => Mat.mulVec (fam As [] i), dAdj := fun i _ => Mat.mulVec (fam Ats [] i),
+      rhs := fam rhs [], omega := fam omega 0, proj := proj.map (·.eval), rid := fam rid 0,
+      cbInner := cb = "inner" }
+  let s := iter P.step n ⟨x0, fun _ => junk 1, junk x0.length, []⟩
+  some s!"ok log={showLog s.log} x={showVec s.x}"
+
+/-- `proxgrad pf= gg= gamma= lam= x0= n=` -/
+def doProxGrad (l : Line) : Option String := do
+  let pf ← Line.pspec? l "pf"
+  let gg ← Line.pspec? l "gg"
+  let gamma ← l.rat? "gamma"
+  let lam ← l.rat? "lam"
+  let x0 ← l.rats? "x0"
+  let n ← l.nat? "n"
+  let P : ProxGradP Rat RV := ⟨pf.eval, gg.eval, gamma, fun _ => lam⟩
+  let (s, log) := runLog P.step (·.x) n (P.init x0 (junk x0.length)) []
+  some s!"ok log={showLog log} x={showVec s.x}"
+
+/-- `osmlem m= A0= At0= data0= sens0= … eps= x0= n=` -/
+def doOsmlem (l : Line) : Option String := do
+  let m ← l.nat? "m"
+  let As ← Line.family l "A" m parseRatMat
+  let Ats ← Line.family l "At" m parseRatMat
+  let data ← Line.family l "data" m parseRatList
+  let sens ← Line.family l "sens" m parseRatList
+  let eps ← l.rat? "eps"
+  let x0 ← l.rats? "x0"
+  let n ← l.nat? "n"
+  let P : OsmlemP RV RV :=
+    { nOps := m, op := fun i => Mat.mulVec (fam As [] i), opAdj := fun i => Mat.mulVec (fam Ats [] i),
+      data := fam data [], sens := fam sens [],
+      clampW := Vec.map (fun v => if v < eps then eps else v),
+      divW := Vec.div, divV := Vec.div, mulV := Vec.mul }
+  -- a division by zero is an error of the real code (inf/nan), not a value of the model
+  let s := iter P.step n ⟨x0, junk x0.length, fun _ => junk 1, []⟩
+  some s!"ok log={showLog s.log} x={showVec s.x}"
+
+/-- `steepest gg= tol= step= proj= x0= n=` (constant step length) -/
+def doSteepest (l : Line) : Option String := do
+  let gg ← Line.pspec? l "gg"
+  let tol ← l.rat? "tol"
+  let step ← l.rat? "step"
+  let proj ← optSpec? l "proj"
+  let x0 ← l.rats? "x0"
+  let n ← l.nat? "n"
+  let P : SteepestP Rat RV := ⟨gg.eval, Vec.nsq, tol, fun _ _ _ => some step, proj.map (·.eval)⟩
+  let s := iter P.step n ⟨x0, junk x0.length, false, false, []⟩
+  some s!"ok log={showLog s.log} x={showVec s.x} stopped={s.stopped}"
+
+/-- `pdhg A= At= pf= pgc= tau= sigma= theta= x0= [xr= y=] n=` -/
+def doPdhg (l : Line) : Option String := do
+  let A ← Line.matR? l "A"
+  let At ← Line.matR? l "At"
+  let pf ← Line.pspec? l "pf"
+  let pgc ← Line.pspec? l "pgc"
+  let tau ← l.rat? "tau"
+  let sigma ← l.rat? "sigma"
+  let theta ← l.rat? "theta"
+  let x0 ← l.rats? "x0"
+  let n ← l.nat? "n"
+  let dv := x0.length
+  let dw := A.rows
+  shape? A dw dv; shape? At dv dw
+  let xr ← match l.get? "xr" with
+    | none => some none
+    | some _ => (l.rats? "xr").map some
+  let y ← match l.get? "y" with
+    | none => some none
+    | some _ => (l.rats? "y").map some
+  let P : PdhgP Rat RV RV := ⟨A.mulVec, fun _ => At.mulVec, pf.eval, pgc.eval, tau, sigma, theta⟩
+  let (s, log) := runLog P.step (·.x) n (P.init x0 xr y (Vec.zero dw) (junk dv) (junk dw)) []
+  some s!"ok log={showLog log} x={showVec s.x} xr={showVec s.xRelax} y={showVec s.y}"
+
 def handle (l : Line) : Option String :=
   match l.op with
   | "admm" => doAdmm l
+  | "adupdates" => doAdupdates l
+  | "dpdc" => doDpdc l
+  | "landweber" => doLandweber l
+  | "kaczmarz" => doKaczmarz l
+  | "proxgrad" => doProxGrad l
+  | "osmlem" => doOsmlem l
+  | "steepest" => doSteepest l
+  | "pdhg" => doPdhg l
   | _ => none
 
 def main : IO Unit := driverLoop handle
